@@ -35,7 +35,7 @@ size_t g_text_len;  /* ghost: bytesStrings */
    (d)->elements >= 1 && (d)->elements <= (uint64_t)(d)->buckets * (d)->bucketsize && (d)->elements > (uint64_t)((d)->buckets - 1) * (d)->bucketsize && \
    __CPROVER_r_ok((d)->textStrings, (d)->bytesStrings) && OFFS((d)->textStrings) == 0 && OBJSZ((d)->textStrings) == (d)->bytesStrings && \
    __CPROVER_r_ok((d)->blStrings, sizeof(LogSequence)) && (d)->blStrings->numentries == (size_t)(d)->buckets + 2)
-/* TRUSTED: frames of the PFC helpers as used by the pattern-preservation obligations of the query entry points. None of them writes through the pattern pointer; they write their out-parameters and the scratch buffer `decoded` only. locateBoundaryBuckets' frame is proved in unit pfc_nav; the others are proved bounded (unit pfc_repr runs the real bodies with CBMC's memory checks) but not yet as stand-alone frame contracts. */
+/* TRUSTED (discharged elsewhere, same clauses): contracts of the PFC helpers as used by the pattern-preservation obligations of the query entry points. None of them writes through the pattern pointer. searchPrefix / searchDistinctPrefix / longestCommonPrefix: unit pfc_frame3 (identical requires/ensures/assigns); getHeader / decodeNextString: unit pfc_nav2 (there with the memory-safety preconditions added); locateBucket / locateBoundaryBuckets: unit pfc_nav; VByte::decode: unit vbyte. */
 void StringDictionaryPFC__locateBoundaryBuckets(StringDictionaryPFC *this, uchar *str, uint strLen, size_t *left, size_t *right)
 __CPROVER_requires(__CPROVER_r_ok(str, 1) && __CPROVER_rw_ok(left, sizeof(size_t)) && __CPROVER_rw_ok(right, sizeof(size_t)) && *left == 1 && *right == this->buckets)
 __CPROVER_ensures(*left <= *right && *right <= this->buckets)
@@ -57,12 +57,13 @@ __CPROVER_requires(__CPROVER_w_ok(c, sizeof(uint))) __CPROVER_ensures(RET >= 1 &
 int longestCommonPrefix(const uchar *str1, const uchar *str2, uint length, uint *lcp)
 __CPROVER_requires(__CPROVER_rw_ok(lcp, sizeof(uint))) __CPROVER_ensures(1) __CPROVER_assigns(*lcp);
 uint StringDictionaryPFC__searchPrefix(StringDictionaryPFC *this, uchar **ptr, uint scanneable, uchar *decoded, uint *decLen, uchar *str, uint strLen)
-__CPROVER_requires(__CPROVER_rw_ok(ptr, sizeof(uchar *)) && __CPROVER_rw_ok(decLen, sizeof(uint)) && __CPROVER_rw_ok(decoded, 1) && __CPROVER_r_ok(str, 1))
+__CPROVER_requires(__CPROVER_rw_ok(ptr, sizeof(uchar *)) && __CPROVER_rw_ok(decLen, sizeof(uint)) && __CPROVER_rw_ok(decoded, 1) && OFFS(decoded) == 0)
+__CPROVER_requires(!__CPROVER_same_object(decoded, ptr) && !__CPROVER_same_object(decoded, decLen) && !__CPROVER_same_object(ptr, decLen) && !__CPROVER_same_object(str, decoded) && scanneable >= 1 && scanneable < 0xFFFFFFFFu)
 __CPROVER_ensures(RET <= scanneable)
 __CPROVER_assigns(*ptr, *decLen, __CPROVER_object_whole(decoded));
 uint StringDictionaryPFC__searchDistinctPrefix(StringDictionaryPFC *this, uchar *ptr, uint scanneable, uchar *decoded, uint *decLen, uchar *_u4, uint strLen)
-__CPROVER_requires(__CPROVER_rw_ok(decLen, sizeof(uint)) && __CPROVER_rw_ok(decoded, 1))
-__CPROVER_ensures(RET >= 1 && (scanneable == (uint)-1 || RET <= scanneable + 1))
+__CPROVER_requires(__CPROVER_rw_ok(decLen, sizeof(uint)) && __CPROVER_rw_ok(decoded, 1) && OFFS(decoded) == 0 && !__CPROVER_same_object(decoded, decLen) && scanneable < 0xFFFFFFFFu)
+__CPROVER_ensures(RET >= 1 && RET <= scanneable + 1)
 __CPROVER_assigns(*decLen, __CPROVER_object_whole(decoded));
 IteratorDictIDContiguous *IteratorDictIDContiguous__ctor__size_t__size_t(IteratorDictIDContiguous *this, size_t left, size_t right)
 __CPROVER_requires(__CPROVER_w_ok(this, sizeof(*this)))
